@@ -161,12 +161,12 @@ func checkC11(c *Ctx, r *Report) {
 	}
 	extentPositiveControls(c, r)
 	r.Floor("positive_controls", 2)
-	r.Floor("routines_amd64", 15)
-	r.Floor("routines_arm64", 12)
-	r.Floor("accesses_amd64", 1000)
-	r.Floor("accesses_arm64", 300)
-	r.Floor("asm_call_sites_arm64", 12)
-	r.Floor("glue_obligations", 200)
+	r.Floor("routines_amd64", 8)
+	r.Floor("routines_arm64", 6)
+	r.Floor("accesses_amd64", 400)
+	r.Floor("accesses_arm64", 120)
+	r.Floor("asm_call_sites_arm64", 5)
+	r.Floor("glue_obligations", 80)
 }
 
 // c11CallSites: every Go call of a body-less sm4 function guarantees the callee's contract.
